@@ -40,7 +40,7 @@ func C02Meta() harness.Meta {
 			"instruction identity is the printed instruction (mnemonic and operands); the program counter is not compared directly",
 		},
 		FaultKinds:     []string{"tie_reorder", "config_swarm"},
-		ExpectedProbes: []string{"generated_alu_program", "barrier_program", "id_probe", "shipped_benchmark", "cdna3_on_mi300a", "divergent_region", "mini_platform", "shipped_platform", "register_scoreboard_on", "register_scoreboard_off", "subdword_load", "wide_load_store", "scalar_load_after_store", "reload_of_own_store"},
+		ExpectedProbes: []string{"generated_alu_program", "barrier_program", "id_probe", "shipped_benchmark", "cdna3_on_mi300a", "divergent_region", "mini_platform", "shipped_platform", "register_scoreboard_on", "register_scoreboard_off", "subdword_load", "wide_load_store", "scalar_load_after_store", "reload_of_own_store", "generated_program_gfx9"},
 		PerRunTimeoutS: 600,
 		ShrinkBudget:   24,
 	}
@@ -195,7 +195,7 @@ func C02(t *testing.T, ch *choice.Source, opt harness.Options, env *Env) harness
 		rand.Seed(inputSeed)
 		switch c.Kind {
 		case 0:
-			co, l, err := kasm.RandomProgram(choice.New(progSeed), c.WG)
+			co, l, err := kasm.RandomProgram(choice.New(progSeed), c.WG, c.Arch == "cdna3")
 			if err != nil {
 				harness.Bug("kasm: %v", err)
 			}
@@ -266,6 +266,12 @@ func C02(t *testing.T, ch *choice.Source, opt harness.Options, env *Env) harness
 	switch c.Kind {
 	case 0:
 		probes["generated_alu_program"] = 1
+		if ch.Bool(1, 3, "v5program") {
+			c.Arch = "cdna3"
+			c.Timing.GPUType = "mi300a"
+			probes["cdna3_on_mi300a"] = 1
+			probes["generated_program_gfx9"] = 1
+		}
 	case 1:
 		probes["barrier_program"] = 1
 	case 2:
